@@ -9,6 +9,8 @@
   before the first write, which is what makes a write all-or-nothing across the base table and
   its indexes.  Not covered (known finding KF-C08-batch-partial): BatchWriteItem applies its
   requests one by one and may fail after some were applied (`batchWrite_partial_trace`).
+  A failing UpdateTable keeps neither the attribute definitions nor the index changes of the request
+  (`updateTable_fail_unchanged`).
 -/
 import Minidyn.Model.Client
 namespace Minidyn.Props.C08
@@ -106,5 +108,31 @@ theorem batchWrite_partial_trace :
     (match r.2 with | .err .validation _ => true | _ => false) = true ∧
     ((alookup [116, 97, 98] r.1.tables).map (·.sortedKeys)) = some [[97]] := by
   decide
+
+/-- **C08**: an UpdateTable that fails — unknown table, a definition that re-types a key attribute in use, an index
+    that cannot be created, an index to delete that does not exist, at any position of the list of changes —
+    leaves the client exactly as it was: no definition, no index of the request remains -/
+theorem updateTable_fail_unchanged (c : Client) (name : Bytes) (chs : List IndexChange)
+    (h : isFailure (updateTable c name chs).2 = true) : (updateTable c name chs).1 = c := by
+  unfold updateTable at h ⊢
+  cases ht : alookup name c.tables with
+  | none => rfl
+  | some t =>
+    simp only [ht] at h ⊢
+    split
+    · rfl
+    · rename_i hr
+      rw [if_neg hr] at h
+      generalize updateTable.go _ chs = res at h ⊢
+      obtain ⟨t', e⟩ := res
+      cases e with
+      | none => simp [isFailure] at h
+      | some cls => rfl
+
+/-- non-vacuity: the second change fails, the index created by the first one is not there afterwards -/
+example :
+    let c0 : Client := (createTable { sdk := .v2 } { table := [116], key := { hash := ([104], [83]) }, payPerRequest := true }).1
+    let r := updateTable c0 [116] [.create { name := [105], key := { hash := ([103], [83]) } }, .delete [122]]
+    isFailure r.2 = true ∧ ((alookup [116] r.1.tables).map (·.indexes.length)) = some 0 := by decide +kernel
 
 end Minidyn.Props.C08
